@@ -197,6 +197,20 @@ def answer (w : List String) : String :=
     | "twoLevel" => ob (twoLevel_uses st (stOf (w.getD 3 "DISK")))
     | "revolve" => ob (revolve_uses st (i 3) (if w.getD 4 "-" = "-" then none else some (i 4)))
     | _ => "bad-request"
+  | some "revObj" =>
+    -- revObj H|D|P|R max_n ram disk uf ub wd rd : the generated constructor, then the generated iterator on its fields
+    let uf := ratOf (w.getD 5 "1")
+    let ub := ratOf (w.getD 6 "1")
+    let wd := ratOf (w.getD 7 "2")
+    let rd := ratOf (w.getD 8 "2")
+    let r := match w.getD 1 "" with
+      | "H" => hrevolve_init fuel (i 2) (i 3) (i 4) uf ub wd rd
+      | "D" => diskRevolve_init fuel (i 2) (i 3) uf ub wd rd
+      | "P" => periodicDiskRevolve_init fuel (i 2) (i 3) uf ub wd rd
+      | _ => revolve_init fuel (i 2) (i 3) uf ub wd rd
+    showEvs (do
+      let (n, r, mx, ex, _sd, _sr, sch) ← r
+      revolve_iterator fuel n r mx sch ex)
   | some "revolveIter" =>
     showEvs (revolve_iterator fuel 0 0 (some (i 1)) (((w.getD 2 "").splitOn ",").filter (· ≠ "") |>.map opOf) false)
   | some "lastReads" =>
